@@ -469,3 +469,412 @@ class World(object):
             "prevent": sorted(nd.port - 4000 for nd in t._preventConnectNodes if isinstance(nd, TCPNode)),
             "view": sorted(self.view[i]),
         }
+
+
+# ================================================================================================
+# World-level actions.  Every action runs the real code of at most one transport and returns a list of
+# "steps": (instance, model_line, outputs) — the same event in the Lean driver's vocabulary plus what the
+# real code emitted.  The caller feeds model_line to `driver transport` and diffs.
+# ================================================================================================
+def split_frames(chunk):
+    res = []
+    i = 0
+    while i + 4 <= len(chunk):
+        l = struct.unpack("i", chunk[i:i + 4])[0]
+        res.append(_pickle.loads(zlib.decompress(chunk[i + 4:i + 4 + l])))
+        i += 4 + l
+    return res
+
+
+RST = "RST"
+
+
+class Sim(World):
+    def __init__(self, repo, n, readonly=(), retry=2048, timeout=4096, members=None):
+        World.__init__(self, repo, n, readonly=readonly, retry=retry, timeout=timeout, members=members)
+        self.members = [set(j for j in range(n) if j != i and j not in self.readonly) for i in range(n)] \
+            if members is None else [set(m) for m in members]
+        self.wires = []
+        self.strangers = []          # raw client sockets driven by the script
+        self.incarnation = [0] * n
+        self.cov = collections.Counter()
+        self.deliveries = []         # (at, source key, true origin, member?) for the monitors
+        self.alive = [True] * n
+
+    # ---- model lines ---------------------------------------------------------------------------
+    def init_line(self, i):
+        me = -1 if i in self.readonly else i
+        t = self.transports[i]
+        others = sorted(nd.port - 4000 for nd in t._nodes)
+        return "init %d %d %d %d %d %d %s" % (i, me, self.retry, self.timeout, self.fabric.now, len(others),
+                                              " ".join(map(str, others)))
+
+    @staticmethod
+    def msg_tok(mk, reply_fail=False):
+        t = mk[0]
+        if t == "addr":
+            return "A%d" % mk[1]
+        if t == "readonly":
+            return "R"
+        if t == "util":
+            return "U%d%d" % (mk[1], 1 if reply_fail else 0)
+        if t == "hash":
+            return "H%d" % mk[1]
+        if t == "unhash":
+            return "X%d" % mk[1]
+        raise ValueError(mk)
+
+    @staticmethod
+    def key_tok(key):
+        return "%s %d" % ("T" if key[0] == "tcp" else "R", key[1])
+
+    # ---- lookups -------------------------------------------------------------------------------
+    def cid_of_fd(self, i, fd):
+        for cid, c in enumerate(self.conn_objs[i]):
+            if c.fileno() == fd:
+                return cid
+        return None
+
+    def owner_live(self, sock):
+        o = sock.owner
+        return isinstance(o, int) and self.alive[o] and getattr(sock, "inc", 0) == self.incarnation[o]
+
+    def connecting_socks(self):
+        return [s for s in self.fabric.socks.values()
+                if s.kind == "connecting" and s.wire is None and not s.closed and self.owner_live(s)]
+
+    def pending_connected(self):
+        """client sockets whose SYN was answered but whose owner has not seen the WRITE event yet"""
+        return [s for s in self.fabric.socks.values()
+                if s.kind == "connecting" and s.wire is not None and not s.closed and self.owner_live(s)]
+
+    # ---- actions -------------------------------------------------------------------------------
+    def a_advance(self, dt):
+        self.fabric.now += dt
+        self.cov["advance"] += 1
+        return [(i, "adv %d %d" % (i, dt), []) for i in range(self.n) if self.alive[i]]
+
+    def a_tick(self, i, imm_fail=()):
+        before = len(self.fabric.socks)
+        r, out = self.call(i, self.transports[i]._onTick, imm_fail=imm_fail)
+        for s in list(self.fabric.socks.values())[before:]:
+            s.inc = self.incarnation[i]
+        self.cov["tick"] += 1
+        self.cov["tick.connects=%d" % min(len(self.fabric.connects), 2)] += 1
+        f = sorted(imm_fail)
+        return [(i, "tick %d %d %s" % (i, len(f), " ".join(map(str, f))), out)]
+
+    def _stamp(self, i, before):
+        for s in list(self.fabric.socks.values())[before:]:
+            if s.owner == i and not hasattr(s, "inc"):
+                s.inc = self.incarnation[i]
+
+    def a_syn_ok(self, sock):
+        """The kernel of the destination answers the SYN: connection established at TCP level (backlog)."""
+        lst = self.fabric.listeners.get(sock.dest[1])
+        if lst is None:
+            return None
+        j = lst.owner
+        ss = FakeSock(self.fabric, j)
+        ss.inc = self.incarnation[j]
+        ss.kind = "established"
+        w = Wire(sock, ss)
+        self.wires.append(w)
+        lst.acceptq.append(ss)
+        self.cov["syn_ok"] += 1
+        return []
+
+    def a_accept(self, j):
+        lst = self.fabric.listeners.get(self.port(j))
+        if lst is None or not lst.acceptq or lst.owner != j:
+            return None
+        r, out = self.call(j, lambda: self.sobjs[j]._poller.fire(lst.fd, READ))
+        self.cov["accept"] += 1
+        return [(j, "accept %d" % j, out)]
+
+    def a_client_event(self, sock, send_fail=False, imm_fail=False):
+        """WRITE event on a client socket whose SYN was answered."""
+        i = sock.owner
+        cid = self.cid_of_fd(i, sock.fd)
+        if cid is None:
+            return None
+        sock.kind = "established"
+        before = len(self.fabric.socks)
+        r, out = self.call(i, lambda: self.sobjs[i]._poller.fire(sock.fd, WRITE),
+                           imm_fail=[sock.dest[1] - 4000] if imm_fail else (),
+                           send_outcomes=["fail"] if send_fail else ())
+        self._stamp(i, before)
+        self.cov["connected"] += 1
+        if send_fail:
+            self.cov["connected.sendfail"] += 1
+        return [(i, "pollok %d %d %d %d" % (i, cid, 1 if send_fail else 0, 1 if imm_fail else 0), out)]
+
+    def a_conn_error(self, sock, style, imm_fail=False):
+        """Error on a socket of a live transport. style: 'mask' (POLLERR), 'soerr' (SO_ERROR), 'rst' (recv raises),
+        'eof' (recv returns b'')."""
+        i = sock.owner
+        cid = self.cid_of_fd(i, sock.fd)
+        if cid is None:
+            return None
+        if style == "mask":
+            mask = ERROR
+        elif style == "soerr":
+            sock.so_error = _errno.ECONNREFUSED
+            mask = READ | WRITE
+        elif style == "rst":
+            sock.rx.clear()
+            sock.rst = True
+            mask = READ
+        else:
+            sock.rx.clear()
+            sock.eof = True
+            mask = READ
+        st0 = self.conn_objs[i][cid].state
+        before = len(self.fabric.socks)
+        r, out = self.call(i, lambda: self.sobjs[i]._poller.fire(sock.fd, mask),
+                           imm_fail=[self._peer_index(sock)] if imm_fail and self._peer_index(sock) is not None else ())
+        self._stamp(i, before)
+        if sock.kind == "connecting":
+            sock.kind = "failed"
+        self.cov["connerr." + style] += 1
+        self.cov["connerr.from_state=%d" % st0] += 1
+        f = 1 if imm_fail and self._peer_index(sock) is not None else 0
+        return [(i, "connerr %d %d %d" % (i, cid, f), out)]
+
+    def _peer_index(self, sock):
+        if sock.side == 0 or sock.wire is None:
+            return sock.dest[1] - 4000 if sock.dest else None
+        return None
+
+    def a_poll_idle(self, i, cid, imm_fail=False):
+        """A WRITE event on the current socket of object cid (only if the code subscribed for WRITE)."""
+        conn = self.conn_objs[i][cid]
+        fd = conn.fileno()
+        if fd is None:
+            return None
+        sub = self.sobjs[i]._poller.subs.get(fd)
+        if sub is None or not (sub[1] & WRITE):
+            return None
+        sock = self.fabric.socks[fd]
+        if sock.kind == "connecting":
+            return None               # not writable yet
+        pj = self._peer_index(sock)
+        before = len(self.fabric.socks)
+        r, out = self.call(i, lambda: self.sobjs[i]._poller.fire(fd, WRITE),
+                           imm_fail=[pj] if imm_fail and pj is not None else ())
+        self._stamp(i, before)
+        self.cov["poll_idle"] += 1
+        return [(i, "pollok %d %d 0 %d" % (i, cid, 1 if imm_fail and pj is not None else 0), out)]
+
+    def a_deliver(self, w, side, k=99, reply_fail=False, imm_fail=False):
+        """Move up to k in-flight items of direction `side` of wire w to the receiving socket and fire READ."""
+        dst = w.ends[1 - side]
+        q = w.inflight[side]
+        if not q:
+            return None
+        moved = []
+        while q and k > 0:
+            k -= 1
+            it = q.popleft()
+            moved.append(it)
+            if it is None or it == RST:
+                break
+        if dst in self.strangers:
+            return []
+        if not self.owner_live(dst) or dst.closed:
+            # nobody is listening any more: a live kernel answers data with RST
+            if not dst.closed and any(isinstance(x, bytes) for x in moved):
+                w.inflight[1 - side].append(RST)
+            self.cov["deliver.dead"] += 1
+            return []
+        i = dst.owner
+        cid = self.cid_of_fd(i, dst.fd)
+        if cid is None:
+            self.cov["deliver.noconn"] += 1
+            return []
+        msgs = []
+        term = None
+        for it in moved:
+            if it is None:
+                dst.eof = True
+                term = "eof"
+            elif it == RST:
+                dst.rst = True
+                dst.rx.clear()
+                term = "rst"
+            else:
+                dst.rx.append(it)
+                msgs.extend(split_frames(it))
+        conn = self.conn_objs[i][cid]
+        pj = self._peer_index(dst)
+        f = 1 if imm_fail and pj is not None else 0
+        mks = [self.msgkey(m) for m in msgs]
+        outcomes = ()
+        use_rf = reply_fail and term is None and len(mks) == 1 and mks[0] == ["util", 1] and \
+            conn in self.transports[i]._unknownConnections
+        if use_rf:
+            outcomes = ["fail"]
+        origin = self.true_origin(dst)
+        before = len(self.fabric.socks)
+        r, out = self.call(i, lambda: self.sobjs[i]._poller.fire(dst.fd, READ),
+                           imm_fail=[pj] if f else (), send_outcomes=outcomes)
+        self._stamp(i, before)
+        for o in out:
+            if o[0] == "deliver":
+                self.deliveries.append({"at": i, "source": o[1], "origin": origin, "msg": o[2],
+                                        "member": o[1][0] == "ro" or o[1][1] in self.members[i]})
+        if term is not None:
+            self.cov["deliver." + term] += 1
+            return [(i, "connerr %d %d %d" % (i, cid, f), out)]
+        self.cov["deliver.data"] += 1
+        self.cov["deliver.msgs=%d" % min(len(mks), 3)] += 1
+        toks = [self.msg_tok(mk, use_rf) for mk in mks]
+        return [(i, "recv %d %d %d %d %s" % (i, cid, f, len(toks), " ".join(toks)), out)]
+
+    def true_origin(self, dst):
+        """Who really is at the other end of the wire of socket dst: ['tcp', j] / ['stranger', claimed] / None."""
+        w = dst.wire
+        if w is None:
+            return None
+        peer = w.ends[1 - dst.side]
+        if peer in self.strangers:
+            return ["stranger"]
+        if dst.side == 1:
+            o = peer.owner
+            return ["ro"] if o in self.readonly else ["tcp", o]
+        return ["tcp", dst.dest[1] - 4000]
+
+    def a_send(self, i, key, payload, send_fail=False, imm_fail=False):
+        t = self.transports[i]
+        node = self.node(key[1]) if key[0] == "tcp" else self.mods["node"].Node(str(key[1]))
+        before = len(self.fabric.socks)
+        r, out = self.call(i, lambda: t.send(node, {"k": payload}),
+                           imm_fail=[key[1]] if imm_fail and key[0] == "tcp" else (),
+                           send_outcomes=["fail"] if send_fail else ())
+        self._stamp(i, before)
+        if not (out and out[-1][0] == "raised"):
+            out.append(["sendResult", 1 if r else 0])
+        self.cov["send"] += 1
+        self.cov["send.result=%s" % bool(r)] += 1
+        f = 1 if imm_fail and key[0] == "tcp" else 0
+        return [(i, "send %d %s %d %d" % (i, self.key_tok(key), 1 if send_fail else 0, f), out)]
+
+    def a_add(self, i, j):
+        r, out = self.call(i, lambda: self.transports[i].addNode(self.node(j)))
+        self.members[i].add(j)
+        self.cov["addNode"] += 1
+        return [(i, "add %d %d" % (i, j), out)]
+
+    def a_drop(self, i, key):
+        node = self.node(key[1]) if key[0] == "tcp" else self.mods["node"].Node(str(key[1]))
+        r, out = self.call(i, lambda: self.transports[i].dropNode(node))
+        if key[0] == "tcp":
+            self.members[i].discard(key[1])
+        self.cov["dropNode"] += 1
+        return [(i, "drop %d %s" % (i, self.key_tok(key)), out)]
+
+    def a_stranger_connect(self, j):
+        lst = self.fabric.listeners.get(self.port(j))
+        if lst is None:
+            return None
+        cs = FakeSock(self.fabric, "S")
+        cs.kind = "established"
+        cs.dest = ("10.0.0.1", self.port(j))
+        self.strangers.append(cs)
+        ss = FakeSock(self.fabric, j)
+        ss.inc = self.incarnation[j]
+        ss.kind = "established"
+        w = Wire(cs, ss)
+        self.wires.append(w)
+        lst.acceptq.append(ss)
+        self.cov["stranger"] += 1
+        return w
+
+    def a_stranger_send(self, w, mk):
+        if w.ends[0].closed:
+            return None
+        w.inflight[0].append(frame(self.mkmsg(mk)))
+        self.cov["stranger.msg." + mk[0]] += 1
+        return []
+
+    def a_restart(self, i, silent):
+        """Abandon transport i (kill -9 of the process: `silent` = the peers get neither FIN nor RST until they
+        send something) and start a new one on the same address."""
+        for s in self.fabric.socks.values():
+            if s.owner == i and getattr(s, "inc", 0) == self.incarnation[i] and not s.closed:
+                if s.kind == "listening":
+                    self.fabric.listeners.pop(s.dest[1], None)
+                    s.closed = True
+                elif not silent:
+                    s.close()
+        self.incarnation[i] += 1
+        self.conn_objs[i] = []
+        self.view[i] = set()
+        conf = self.sobjs[i].conf
+        so = DummySyncObj(conf)
+        self.sobjs[i] = so
+        self.fabric.cur = i
+        before = len(self.fabric.socks)
+        selfnode = None if i in self.readonly else self.node(i)
+        t = self.mods["transport"].TCPTransport(so, selfnode, [self.node(j) for j in sorted(self.members[i])])
+        self.fabric.cur = None
+        self._stamp(i, before)
+        self._wire_callbacks(i, t)
+        self.transports[i] = t
+        self.cov["restart." + ("silent" if silent else "fin")] += 1
+        return [(i, self.init_line(i), [])]
+
+    # ---- property monitors on the real objects (C14 statement) -----------------------------------
+    def bound_node(self, conn):
+        """The node a connection object delivers as (None while it is in the handshake)."""
+        cb = conn._TcpConnection__onMessageReceived
+        f = getattr(cb, "func", None)
+        if f is not None and getattr(f, "__name__", "") == "_onMessageReceived":
+            return self.key(cb.args[0])
+        return None
+
+    def monitor(self):
+        """Evaluate the state clauses of C14 on every live transport; returns a list of violations."""
+        v = []
+        for i in range(self.n):
+            if not self.alive[i]:
+                continue
+            t = self.transports[i]
+            live = collections.Counter()
+            for c in self.conn_objs[i]:
+                if c.state == 2:
+                    b = self.bound_node(c)
+                    if b is not None:
+                        live[repr(b)] += 1
+                        if b[0] == "tcp" and b[1] not in self.members[i]:
+                            v.append({"signature": "transport.registry:live-connection-of-non-member",
+                                      "what": "transport %d holds a CONNECTED connection that delivers as %r, which is "
+                                              "not (any more) a member" % (i, b)})
+            for b, cnt in live.items():
+                if cnt > 1:
+                    v.append({"signature": "transport.registry:two-live-connections",
+                              "what": "transport %d holds %d CONNECTED connections that deliver as %s" % (i, cnt, b)})
+            for b in self.view[i]:
+                key = eval(b)
+                node = self.node(key[1]) if key[0] == "tcp" else self.mods["node"].Node(str(key[1]))
+                conn = t._connections.get(node)
+                if conn is None or conn.state != 2:
+                    v.append({"signature": "transport.notify:reported-connected-without-connection",
+                              "what": "transport %d: last notification for %s is 'connected' (isNodeConnected would be "
+                                      "True) but there is no CONNECTED registered connection" % (i, b)})
+        return v
+
+    def monitor_deliveries(self):
+        v = []
+        for d in self.deliveries:
+            if not d["member"]:
+                v.append({"signature": "transport.deliver:from-non-member",
+                          "what": "transport %d delivered %r as coming from %r which is not a member (removed)"
+                                  % (d["at"], d["msg"], d["source"])})
+            o = d["origin"]
+            if o is not None and o[0] == "tcp" and d["source"][0] == "tcp" and o != d["source"]:
+                v.append({"signature": "transport.deliver:wrong-source",
+                          "what": "transport %d delivered %r as coming from %r but it was sent by %r"
+                                  % (d["at"], d["msg"], d["source"], o)})
+        del self.deliveries[:]
+        return v
